@@ -323,10 +323,17 @@ func clusterAffectedByChangedDrs(
 	}
 
 	if proxy.PrevSidecarScope != nil {
-		if dr := proxy.PrevSidecarScope.DestinationRule(model.TrafficDirectionOutbound, proxy, hostname); dr != nil {
+		dr := proxy.PrevSidecarScope.DestinationRule(model.TrafficDirectionOutbound, proxy, hostname)
+		if dr != nil {
 			if slices.ContainsFunc(dr.GetFrom(), changedDrs.Contains) {
 				return true
 			}
+		}
+		// A changed rule can replace the effective rule without being part of it before or after: a rule of the
+		// proxy's namespace hides the rules of other namespaces for the host even when its workload selector
+		// does not select this proxy.
+		if !slices.Equal(dr.GetFrom(), currentDr.GetFrom()) {
+			return true
 		}
 	}
 
